@@ -651,12 +651,27 @@ func insertSeparatorsAt(integer string, sep rune, positions []int, fromRight boo
 	s := integer
 	chunks := make([]string, 0, len(positions)+1)
 
+	// consumed is the number of characters already moved
+	// from s into chunks. (Positions counted from the left
+	// are relative to the start of the original string.)
+	consumed := 0
+
 	for i := range positions {
 
 		n := positions[i]
 		if fromRight {
 			n = utf8.RuneCountInString(s) - n
+		} else {
+			n -= consumed
 		}
+
+		// Only insert a separator where there are characters
+		// on both sides of it.
+		if n <= 0 || n >= utf8.RuneCountInString(s) {
+			continue
+		}
+
+		consumed += n
 
 		pos := 0
 		for n > 0 {
